@@ -1,4 +1,5 @@
 import PqV.Lemmas.Footer
+import PqV.Lemmas.FooterSeq
 import PqV.Gen.FooterIO
 /-!
 # C16 — user key-value metadata verbatim; in-place updates touch nothing else
@@ -92,5 +93,15 @@ theorem shrink_fails_without_truncate :
 theorem kv_merge_one (kvm : KV) (u : List Nat × Option (List Nat)) (hnd : (kvm.map (·.1)).Nodup) (k : List Nat) :
     lookup (merge kvm [u]) k = specStep (lookup kvm) u k := by
   exact merge_one_lookup kvm u hnd k
+
+/-- **a whole update dict** (any number of distinct keys; adds, replacements and removals mixed):
+    applying it key by key — with the code's spare key list that is *not* extended when a key is
+    added — shows, for every key, exactly what the plain finite-map specification shows. -/
+theorem kv_merge_any_update (kvm : KV) (upd : List (List Nat × Option (List Nat))) (hnd : (kvm.map (·.1)).Nodup)
+    (hupd : (upd.map (·.1)).Nodup) (k : List Nat) :
+    lookup (merge kvm upd) k = (upd.foldl specStep (lookup kvm)) k :=
+  merge_lookup kvm upd hnd hupd k
+
+example : lookup (merge [([1], [10]), ([2], [20])] [([2], none), ([3], some [30]), ([1], some [11])]) [1] = some [11] := by decide
 
 end PqV.Props.C16
